@@ -75,6 +75,10 @@ ROWS = [
  ("C16", "list-name/hasattr-raises-KeyError", "fixed", "reading the name of a repeated child on an instance raised KeyError", "hasattr(BANKMSGSRSV1(), 'stmttrnrs') / getattr(..., None) raised KeyError for every name under which a class declares repeated children; reported by a seeding sub-agent"),
  ("C17", "input-mutated/result-depends-on-the-threads-arithmetic-context", "fixed", "reading a decimal with a comma depended on the calling thread", "in a thread whose decimal context does not trap InvalidOperation (decimal.ExtendedContext) '1,23' was refused as 'not a finite number'; reported by three seeding sub-agents"),
  ("C07", "text/xml/raises-ParseError", "fixed", "an empty CDATA section ran on to the end of the next one", "follow-up of d090e8c: '<FOO><![CDATA[]]></FOO>' (an unknown element with an empty CDATA section) became a ParseError, and had always swallowed everything up to the next ']]>'; reported by a seeding sub-agent, not generated by the checks"),
+ ("C20", "sedol2isin/unknown-country-converted", "fixed", "sedol2isin checked the country code only through an assert", "under python -O sedol2isin('0111009', 'ZZ') returned 'ZZ0001110095' (an identifier no agency issues; validate_isin refuses it); reported by a seeding sub-agent"),
+ ("C19", "all/account-extra-or-duplicated", "fixed", "ofxget --all requested an account twice", "an account the server lists as ACTIVE in two <ACCTINFO> aggregates was requested (and with --write saved) twice; reported by a seeding sub-agent"),
+ ("C16", "shortcut/STMTENDTRNRS.statement/raises-AttributeError", "fixed", "STMTENDTRNRS lacked the 'statement' shortcut", "the bank closing-statement wrapper had no .statement although STMTTRNRS, CCSTMTTRNRS, INVSTMTTRNRS and CCSTMTENDTRNRS have; the check had skipped wrappers without the attribute; reported by seeding sub-agents"),
+ ("C09", "write/aware-refused", "fixed", "an aware value whose tzinfo doesn't implement tzname()", "a datetime / time whose tzinfo gives an offset but does not implement tzname() (the base class raises NotImplementedError) could not be written (also time/write/aware-refused); reported by a seeding sub-agent"),
  ("C06", "caller-string-entity-decoded", "known", None, "a user id / password / account id / ORG / FID... that the CALLER passes and that contains an OFX entity sequence (e.g. password 'a&lt;b' or account 'x&amp;y') is entity-decoded by String.convert() when the request model is built, so the request carries 'a<b' / 'x&y' instead of what was supplied. Not repaired: the decode-on-assignment is by design shared between parsed text and Python values; a repair needs ~20 call sites in Client.py or an API change"),
  ("C15", "wrong-server/same-org-fid-different-url", "fixed", "FI profile cached from one server", "cache keyed by ORG-FID only: client of another URL sent A's DTPROFUP and used A's profile"),
 ]
